@@ -20,13 +20,13 @@ import cassandra.concurrent as ccon           # noqa: E402
 META = dict(
     level='model_checking',
     level_text='every combination of statement count, concurrency, per-statement behaviour, fail-fast flag and completion order within the bounds is explored (solver-forked scenario variables) through the real executors; results, ordering, the in-flight bound, the raised failure and the completion count of the asynchronous future are compared per path with the specification',
-    level_note='completions are delivered whenever the calling thread blocks on the executor condition (and after execute() returned for the asynchronous variant): pre-emption at the condition wait only, not inside lock-free regions; at most 3 statements',
+    level_note='completions are delivered whenever the calling thread blocks on the executor condition (and after execute() returned for the asynchronous variant); in the generator-race jobs the consumer thread may additionally run at every acquire/release of the executor condition inside _put_result (at most two such pre-emptions per history); at most 3 statements',
     technique='symbolic execution (sx, solver-forked scenario and scheduler variables) of the real cassandra.concurrent executors over a scripted session; threading.Condition replaced by a virtual condition whose wait() hands control to the scheduler',
     bounds=dict(quick='1..3 statements, concurrency 1..3, behaviours {raise, sync-ok, sync-error, later-ok, later-error}, fail-fast on/off, list / generator / future variants, every completion order',
                 thorough='1..4 statements, concurrency 1..4'),
     assumptions=['a callback thread delivers a completion only while the caller is blocked in Condition.wait (or, for the future variant, after execute_concurrent_async returned)'],
     stubs=['session.execute_async: scripted futures (add_callbacks / clear_callbacks)', 'threading.Condition in cassandra.concurrent: virtual condition (wait = scheduler step)'],
-    outside=['interleavings inside the executors\' lock-free regions (two callback threads racing)', 'the recursion limit path (100 consecutive synchronous failures)'],
+    outside=['two callback threads racing with each other', 'the recursion limit path (100 consecutive synchronous failures)'],
 )
 
 
@@ -245,6 +245,67 @@ def h_future(V, maxn=3):
     V.check(sess.max_in_flight <= conc, 'future:at-most-concurrency-in-flight')
 
 
+def h_generator_race(V, maxn=3):
+    """results_generator=True with the consumer thread and a callback thread interleaved at the executor's sync
+    points: completions are delivered by the callback thread (the harness), and at every acquire/release of the
+    executor condition inside _put_result the consumer thread may run as far as it can without blocking"""
+    n = V.choice('statements', maxn) + 1
+    conc = V.choice('concurrency', maxn) + 1
+    beh = [V.pick('behaviour%d' % i, ['later-ok', 'later-error', 'sync-ok']) for i in range(n)]
+    w = kit.World()
+    sess = _Session(beh)
+    res = []
+    state = dict(done=False, gen=None, ex=None)
+
+    def can_progress():
+        # the consumer is either not started or suspended at its `yield`; resuming it first does `_current += 1`
+        ex = state['ex']
+        cur = ex._current + (1 if state.get('yielded') else 0)
+        return (ex._results_queue and ex._results_queue[0][0] == cur) or cur >= ex._exec_count
+
+    def consumer_runs(*a):
+        for _ in range(3):
+            g = state['gen']
+            if g is None or state['done'] or g.gi_running or not can_progress():
+                return
+            try:
+                res.append(next(g))
+                state['yielded'] = True
+            except StopIteration:
+                state['done'] = True
+
+    pre = kit.Preempter(V, ('_put_result',), consumer_runs, budget=2)
+    orig_cond = ccon.Condition
+    ccon.Condition = lambda *a: kit.VirtualCondition(kit.SchedLock('executor.condition', pre))
+    w.on_wait = lambda cond, timeout: False
+    try:
+        ex = ccon.ConcurrentExecutorGenResults(sess, [(i, None) for i in range(n)], None)
+        state['ex'] = ex
+        state['gen'] = ex.execute(conc, False)
+        step = 0
+        while sess.pending:
+            k = V.choice('deliver%d' % step, len(sess.pending))
+            step += 1
+            f = sess.pending.pop(k)
+            f.complete()
+            if V.flag('consumer_runs_after_%d' % step):
+                consumer_runs()
+        # the consumer drains what is left
+        for _ in range(2 * n + 2):
+            if state['done']:
+                break
+            if not can_progress():
+                break
+            consumer_runs()
+    finally:
+        ccon.Condition = orig_cond
+    V.tag('scenario', '%d/%d/%s/%r' % (n, conc, ','.join(b[:8] for b in beh), pre.log))
+    V.check(state['done'], 'generator-race:consumer-reaches-the-end', note='%d results so far' % len(res))
+    check_results(V, res, n, beh, 'generator-race')
+    V.check(sess.order == list(range(n)), 'generator-race:every-statement-executed-once-in-order', note=repr(sess.order))
+    V.check(sess.max_in_flight <= conc, 'generator-race:at-most-concurrency-in-flight')
+
+
 def jobs(tier):
     maxn = 3 if tier == 'quick' else 4
     J = []
@@ -252,4 +313,5 @@ def jobs(tier):
         J.append(Job('list/n%d' % (n + 1), 'h_list', dict(maxn=maxn), dict(pin={'statements': n})))
         J.append(Job('generator/n%d' % (n + 1), 'h_list', dict(maxn=maxn, generator=True), dict(pin={'statements': n})))
         J.append(Job('future/n%d' % (n + 1), 'h_future', dict(maxn=maxn), dict(pin={'statements': n})))
+        J.append(Job('generator-race/n%d' % (n + 1), 'h_generator_race', dict(maxn=maxn), dict(pin={'statements': n})))
     return J
